@@ -136,6 +136,8 @@ static int ht_wait_settled(struct htab *t, const char *role, const char *what, v
 	unsigned long s0 = ht_size(t);
 	int stale_run = 0;
 	long minq = 1L << 30;
+	struct rq_snap rq0;
+	rq0.n = 0;
 	for (long i = 0; i < g_settle_polls; i++) {
 		if (!ht_unsettled(t))
 			return 0;
@@ -153,6 +155,8 @@ static int ht_wait_settled(struct htab *t, const char *role, const char *what, v
 		} else
 			stale_run = 0;
 		nap(500);
+		if (i == 200)
+			rq_snapshot(getpid(), &rq0);
 		if (i == 4000 && getenv("FORKH_DEBUG")) {
 			char dbg[4096];
 			dump_tasks(getpid(), dbg, sizeof(dbg));
@@ -166,15 +170,16 @@ static int ht_wait_settled(struct htab *t, const char *role, const char *what, v
 		}
 	}
 	uint64_t act = worker_activity() - act0;
-	if (!act && minq >= 1 && minq < (1L << 30)) {
+	int starved = rq_starved_permille(getpid(), &rq0);
+	if (!act && minq >= 1 && minq < (1L << 30) && starved < 250) {
 		char key[96];
 		snprintf(key, sizeof(key), "hang:fork:%s:ht-resize-never-ran", role);
 		R_viol(key, "%s %s: lazy resize queued (resize_initiated=%d size=%lu target=%lu, work queue length stayed >= %ld) for %ld polls and the resize worker showed no activity (no workqueue/resize hook point hit in pid %d, %d tasks)",
 		       role, what, t->ht->resize_initiated, ht_size(t), ht_target(t), minq, g_settle_polls, (int) getpid(),
 		       count_tasks(getpid()));
 	} else {
-		R_inconcl("%s %s: table did not settle in %ld polls (worker hook hits %llu, min work queue length %ld)", role, what,
-			  g_settle_polls, (unsigned long long) act, minq == (1L << 30) ? -1 : minq);
+		R_inconcl("%s %s: table did not settle in %ld polls (worker hook hits %llu, min work queue length %ld, max CPU starvation %d per mille)",
+			  role, what, g_settle_polls, (unsigned long long) act, minq == (1L << 30) ? -1 : minq, starved);
 	}
 	return -1;
 }
